@@ -40,3 +40,73 @@ package vamana
 //@   ensures err == nil ==> ncalls(Get) == 1 && string(callarg(Get, 1, 1)) == "_vamanaMaxNodeId"
 //@   ensures err == nil && callres(Get, 1, 0) == nil ==> result0.maxNodeId.v == 0
 //@   ensures err == nil && callres(Get, 1, 0) != nil ==> result0.maxNodeId.v == le64at(callres(Get, 1, 0), 0)
+
+// ---- graph nodes (property C10): the edge list and the cached neighbour points stay in step ----
+// nodeOK: neighbours[k] is the stored point with id edges[k] (pid: the id a stored point reports).
+//@ spec nodeSync(e []uint64, n []vectorstore.VectorStorePoint) bool = len(e) == len(n) && forall(k, 0, len(e), e[k] == pid(n[k]))
+
+//@ func (*graphNode).ClearNeighbours
+//@   property C10
+//@   modifies g.edges, g.neighbours, g.isDirty, g.isNeighLoaded.v
+//@   ensures len(g.edges) == 0 && len(g.neighbours) == 0 && g.isDirty && g.isNeighLoaded.v != 0
+//@   ensures g.Id == old(g.Id)
+
+//@ func (*graphNode).AddNeighbour
+//@   property C10
+//@   safety -overflow
+//@   requires nodeSync(g.edges, g.neighbours)
+//@   modifies g.edges, g.neighbours, g.isDirty, contents(g.edges), contents(g.neighbours)
+//@   ensures nodeSync(g.edges, g.neighbours) && g.isDirty && result == len(g.edges)
+//@   ensures len(g.edges) == old(len(g.edges)) + 1 && g.edges[len(g.edges)-1] == pid(neighbour)
+//@   ensures forall(k, 0, old(len(g.edges)), g.edges[k] == old(g.edges[k]))
+//@   ensures g.Id == old(g.Id)
+
+//@ func (*graphNode).AddNeighbourIfNotExists
+//@   property C10
+//@   safety -overflow
+//@   requires nodeSync(g.edges, g.neighbours)
+//@   modifies g.edges, g.neighbours, g.isDirty, contents(g.edges), contents(g.neighbours)
+//@   ensures nodeSync(g.edges, g.neighbours) && result == len(g.edges)
+//@   ensures exists(k, 0, len(g.edges), g.edges[k] == pid(neighbour))
+//@   ensures old(exists(k, 0, len(g.edges), g.edges[k] == pid(neighbour))) ==> len(g.edges) == old(len(g.edges))
+//@   ensures !old(exists(k, 0, len(g.edges), g.edges[k] == pid(neighbour))) ==> len(g.edges) == old(len(g.edges)) + 1
+//@   ensures forall(k, 0, old(len(g.edges)), g.edges[k] == old(g.edges[k]))
+//@   loop 1 invariant rangeindex >= -1 && rangeindex < len(g.edges) && forall(k, 0, rangeindex+1, g.edges[k] != pid(neighbour))
+
+// robust prune (property C10): the rebuilt edge list respects the degree bound, has no edge back
+// to the node itself, and consists of candidates only (so it cannot point at anything the caller
+// did not offer).
+//@ func (*IndexVamana).robustPrune
+//@   property C10
+//@   floats order
+//@   safety -overflow
+//@   requires node != nil && iv.parameters.DegreeBound >= 1
+//@   opaque distFn
+//@   modifies node.edges, node.neighbours, node.isDirty, node.isNeighLoaded.v, contents(node.edges), contents(node.neighbours), contents(candidateSet.items)
+//@   ensures nodeSync(node.edges, node.neighbours) && len(node.edges) <= iv.parameters.DegreeBound && node.Id == old(node.Id)
+//@   ensures forall(k, 0, len(node.edges), node.edges[k] != node.Id)
+//@   ensures forall(k, 0, len(node.edges), exists(i, 0, len(candidateSet.items), node.edges[k] == pid(candidateSet.items[i].Point)))
+//@   loop 1 invariant i >= 0 && i <= len(candidateSet.items) && nodeSync(node.edges, node.neighbours) && len(node.edges) < iv.parameters.DegreeBound && node.Id == old(node.Id)
+//@   loop 1 invariant forall(k, 0, len(node.edges), node.edges[k] != node.Id)
+//@   loop 1 invariant forall(k, 0, len(node.edges), exists(i2, 0, len(candidateSet.items), node.edges[k] == pid(candidateSet.items[i2].Point)))
+//@   loop 1 invariant forall(i2, 0, len(candidateSet.items), candidateSet.items[i2].Point == old(candidateSet.items[i2].Point))
+//@   loop 2 invariant j >= i + 1 && j <= len(candidateSet.items) && i >= 0 && i < len(candidateSet.items)
+//@   loop 2 invariant forall(i2, 0, len(candidateSet.items), candidateSet.items[i2].Point == old(candidateSet.items[i2].Point))
+
+// classification of one incoming change (property C10): the reserved ids are refused; the
+// recorded maximum node id never decreases and bounds every inserted id; an existing id goes to
+// the update or delete list and, either way, into the set whose inbound edges are removed before
+// the node is dropped or re-inserted.
+//@ func (*IndexVamana).insertUpdateDelete$1
+//@   property C10
+//@   safety -overflow
+//@   modifies updatedPoints, deletedPointsIds, contents(updatedPoints), contents(deletedPointsIds), toRemoveInBoundNodeIds, v.maxNodeId.v
+//@   requires toRemoveInBoundNodeIds != nil
+//@   ensures point.Id == 0 || point.Id == 1 ==> err != nil && ncalls(Exists) == 0
+//@   ensures v.maxNodeId.v >= old(v.maxNodeId.v)
+//@   ensures err == nil && !skip ==> out == point && !callres(Exists, 1, 0) && point.Vector != nil && v.maxNodeId.v >= point.Id
+//@   ensures err == nil && callres(Exists, 1, 0) ==> skip && contains(toRemoveInBoundNodeIds, point.Id)
+//@   ensures err == nil && callres(Exists, 1, 0) && point.Vector != nil ==> len(updatedPoints) == old(len(updatedPoints)) + 1 && updatedPoints[len(updatedPoints)-1] == point && len(deletedPointsIds) == old(len(deletedPointsIds))
+//@   ensures err == nil && callres(Exists, 1, 0) && point.Vector == nil ==> len(deletedPointsIds) == old(len(deletedPointsIds)) + 1 && deletedPointsIds[len(deletedPointsIds)-1] == point.Id && len(updatedPoints) == old(len(updatedPoints))
+//@   ensures err == nil && !callres(Exists, 1, 0) && point.Vector == nil ==> skip && len(updatedPoints) == old(len(updatedPoints)) && len(deletedPointsIds) == old(len(deletedPointsIds)) && v.maxNodeId.v == old(v.maxNodeId.v)
+//@   ensures forallv(k uint64, old(contains(toRemoveInBoundNodeIds, k)) ==> contains(toRemoveInBoundNodeIds, k))
